@@ -124,6 +124,11 @@ func body(w *run.Worker) {
 		t.flush(w)
 	})
 
+	w.Cases("history", w.N(12000, 200000), func(c *run.Case) {
+		runHistory(c, w, t, caseRng(c, w))
+		t.flush(w)
+	})
+
 	maxSize := 3
 	if w.Thorough() {
 		maxSize = 6
@@ -166,6 +171,13 @@ func caseRng(c *run.Case, w *run.Worker) *gen.Rng {
 // execute runs one (scenario, consumer) pair against the real code and hands
 // the observations to the oracle.
 func execute(c *run.Case, w *run.Worker, t tally, sc *scenario, cons *consumer, sample bool) {
+	executeGated(c, w, t, sc, cons, sample, nil)
+}
+
+// executeGated is execute for one attempt of a history: gate is asked after
+// the consumption whether the oracle applies to this attempt (see history.go);
+// the attempt's integrity verdicts are returned for the later attempts' gates.
+func executeGated(c *run.Case, w *run.Worker, t tally, sc *scenario, cons *consumer, sample bool, gate func() bool) *verdicts {
 	b, st, v := sc.build()
 	budget := 8*(len(sc.content)+sc.size+len(sc.chunks)) + 200
 	obs := consume(b, cons, budget)
@@ -189,7 +201,11 @@ func execute(c *run.Case, w *run.Worker, t tally, sc *scenario, cons *consumer, 
 	if !sc.matching() || sc.ioErr != nil {
 		w.Distinct(sc.String() + "|" + cons.String())
 	}
-	evaluate(c, t, sc, cons, obs, st, v)
+	if gate != nil && !gate() {
+		t["history_unasserted_after_positive"]++
+	} else {
+		evaluate(c, t, sc, cons, obs, st, v)
+	}
 	if sample {
 		var o []string
 		for i := range obs {
@@ -198,6 +214,7 @@ func execute(c *run.Case, w *run.Worker, t tally, sc *scenario, cons *consumer, 
 		w.Sample(map[string]any{"scenario": sc.String(), "digest": sc.d.String(), "consumer": cons.String(), "observed": o,
 			"callback_positive": v.pos.Load(), "callback_negative": v.neg.Load()})
 	}
+	return v
 }
 
 // ---------------------------------------------------------------------------
@@ -247,27 +264,44 @@ func genSize(r *gen.Rng) int {
 	}
 }
 
+// fixKind replaces content kinds that are impossible for the size / function.
+func fixKind(kind string, fn remoteexecution.DigestFunction_Value, size int) string {
+	if size == 0 && (kind == kindFlip || kind == kindTrunc || kind == kindSizeShort) {
+		kind = kindExtend
+	}
+	if !sizeLiePossible(fn) {
+		if kind == kindSizeShort {
+			kind = kindTrunc
+		} else if kind == kindSizeLong {
+			kind = kindExtend
+		}
+	}
+	return kind
+}
+
+func genGood(r *gen.Rng, size int) []byte {
+	if r.Bool() {
+		return protoShaped(r, size)
+	}
+	return r.Bytes(size)
+}
+
 func genScenario(r *gen.Rng) *scenario {
 	sc := &scenario{errPos: -1}
 	sc.fn = gen.AllFunctions[r.Intn(len(gen.AllFunctions))]
 	sc.size = genSize(r)
-	sc.kind = []string{kindMatch, kindMatch, kindMatch, kindFlip, kindFlip, kindTrunc, kindTrunc, kindExtend, kindExtend, kindSizeShort, kindSizeLong}[r.Intn(11)]
-	if sc.size == 0 && (sc.kind == kindFlip || sc.kind == kindTrunc || sc.kind == kindSizeShort) {
-		sc.kind = kindExtend
-	}
-	if !sizeLiePossible(sc.fn) {
-		if sc.kind == kindSizeShort {
-			sc.kind = kindTrunc
-		} else if sc.kind == kindSizeLong {
-			sc.kind = kindExtend
-		}
-	}
-	var good []byte
-	if r.Bool() {
-		good = protoShaped(r, sc.size)
-	} else {
-		good = r.Bytes(sc.size)
-	}
+	sc.kind = fixKind([]string{kindMatch, kindMatch, kindMatch, kindFlip, kindFlip, kindTrunc, kindTrunc, kindExtend, kindExtend, kindSizeShort, kindSizeLong}[r.Intn(11)], sc.fn, sc.size)
+	fillContent(r, sc, genGood(r, sc.size))
+	sc.ctor = r.Pick(ctorReader, ctorReader, ctorReader, ctorChunkReader, ctorChunkReader, ctorChunkReader, ctorByteSlice, ctorReaderAt)
+	sc.backend = r.Bool() || sc.ctor == ctorReaderAt
+	genDelivery(r, sc)
+	return sc
+}
+
+// fillContent derives the object's content (and the digest) from the content
+// good that has the digest's size, according to sc.kind. For all kinds but
+// sizeshort/sizelong the digest is that of good.
+func fillContent(r *gen.Rng, sc *scenario, good []byte) {
 	small := func(max int) int { // 1..max, biased to 1 and 2
 		if max < 1 {
 			return 1
@@ -309,10 +343,14 @@ func genScenario(r *gen.Rng) *scenario {
 		sc.content, sc.detail = append(append([]byte{}, good...), r.Bytes(k)...), fmt.Sprintf("content %d bytes, hash of content", sc.size+k)
 		sc.d = makeDigest(sc.fn, sc.content, sc.size)
 	}
+}
 
-	sc.ctor = r.Pick(ctorReader, ctorReader, ctorReader, ctorChunkReader, ctorChunkReader, ctorChunkReader, ctorByteSlice, ctorReaderAt)
-	sc.backend = r.Bool() || sc.ctor == ctorReaderAt
-	if sc.ctor != ctorByteSlice && r.Chance(1, 4) {
+// genDelivery generates how the source of sc.ctor hands the content out: an
+// optional I/O error at a position, the split into reads/chunks, and whether
+// the terminal condition comes together with the last bytes.
+func genDelivery(r *gen.Rng, sc *scenario) {
+	sc.errPos, sc.ioErr = -1, nil
+	if sc.ctor != ctorByteSlice && sc.ctor != ctorVCByteSlice && r.Chance(1, 4) {
 		l := len(sc.content)
 		sc.errPos = r.Pick(0, sc.size-1, sc.size, l, r.Intn(l+1))
 		if sc.errPos < 0 {
@@ -334,7 +372,6 @@ func genScenario(r *gen.Rng) *scenario {
 		}
 	}
 	sc.termWithData = r.Bool()
-	return sc
 }
 
 func genMax(r *gen.Rng, size int) int {
@@ -398,23 +435,61 @@ func fixLeaf(c *consumer) *consumer {
 	return c
 }
 
+// genWrap generates a stack of decorations (innermost first): background tasks
+// (once, twice, failing), a pass-through error handler, and both orders of the
+// two, as bb-storage's replicators, local stores and metrics layers stack them.
+func genWrap(r *gen.Rng) []string {
+	switch r.Intn(12) {
+	case 0, 1, 2, 3:
+		return []string{wrapTask}
+	case 4, 5:
+		return []string{wrapTask, wrapTask}
+	case 6, 7:
+		return []string{wrapHandler}
+	case 8:
+		return []string{wrapHandler, wrapTask}
+	case 9:
+		return []string{wrapTask, wrapHandler}
+	case 10:
+		return []string{wrapTaskErr}
+	}
+	return []string{wrapTask, wrapTaskErr}
+}
+
+// genConsumer generates a consumption: a leaf, or a clone operation with one
+// leaf per clone; about a third are decorated, at the root (before cloning),
+// at the clones (after cloning), or both.
 func genConsumer(r *gen.Rng, size int) *consumer {
+	var c *consumer
 	switch k := r.Intn(100); {
 	case k < 62:
-		return fixLeaf(genLeaf(r, size, r.Chance(1, 4)))
+		c = fixLeaf(genLeaf(r, size, r.Chance(1, 4)))
 	case k < 75:
-		return &consumer{op: opCloneCopy, max: genMax(r, size), subs: []*consumer{fixLeaf(genLeaf(r, size, true)), fixLeaf(genLeaf(r, size, true))}}
+		c = &consumer{op: opCloneCopy, max: genMax(r, size), subs: []*consumer{fixLeaf(genLeaf(r, size, true)), fixLeaf(genLeaf(r, size, true))}}
 	default:
 		n := 2
 		if r.Chance(1, 3) {
 			n = 3
 		}
-		c := &consumer{op: opCloneStream}
+		c = &consumer{op: opCloneStream}
 		for i := 0; i < n; i++ {
 			c.subs = append(c.subs, fixLeaf(genLeaf(r, size, true)))
 		}
-		return c
 	}
+	if r.Chance(1, 3) {
+		where := r.Intn(3) // 0 root, 1 clones, 2 both
+		if len(c.subs) == 0 || where != 1 {
+			c.wrap = genWrap(r)
+		}
+		if where != 0 {
+			for _, s := range c.subs {
+				if r.Bool() {
+					s.wrap = genWrap(r)
+				}
+			}
+		}
+	}
+	return c
 }
 
 // ---------------------------------------------------------------------------
@@ -535,6 +610,10 @@ func chunksOf(a, mask, empties int) []int {
 
 var smallConsumerCache = map[int][]*consumer{}
 
+// smallHistoryLen is the number of successive reads of one digest in the
+// small-scope engine's histories.
+const smallHistoryLen = 24
+
 // smallConsumers is the fixed consumer list for a digest size.
 func smallConsumers(size int) []*consumer {
 	if cs, ok := smallConsumerCache[size]; ok {
@@ -589,6 +668,20 @@ func smallConsumers(size int) []*consumer {
 	if size > 0 {
 		cs = append(cs, &consumer{op: opCloneStream, subs: []*consumer{bs(size - 1), rd(3)}})
 	}
+	// Decorated buffers: every consumption method behind a background task,
+	// a few behind two tasks, a failing task and a pass-through error handler,
+	// and decorations on either side of a clone operation.
+	wr := func(c *consumer, wraps ...string) *consumer { cc := *c; cc.wrap = wraps; return &cc }
+	cs = append(cs,
+		wr(bs(size), wrapTask), wr(pr, wrapTask), wr(rd(3), wrapTask, wrapTask),
+		wr(cr(0, 1), wrapTask), wr(cr(size/2, 2), wrapTask, wrapTask),
+		wr(ra(0, size), wrapTask), wr(iw, wrapTask), wr(di, wrapTask),
+		wr(cr(0, 2), wrapTaskErr),
+		wr(rd(2), wrapHandler), wr(cr(0, 2), wrapHandler, wrapTask), wr(ra(0, size), wrapTask, wrapHandler),
+		wr(&consumer{op: opCloneStream, subs: []*consumer{cr(0, 1), di}}, wrapTask),
+		&consumer{op: opCloneStream, subs: []*consumer{wr(cr(0, 2), wrapTask), wr(rd(2), wrapTask)}},
+		wr(&consumer{op: opCloneCopy, max: size, subs: []*consumer{cr(0, 3), wr(iw, wrapTask)}}, wrapTask),
+	)
 	smallConsumerCache[size] = cs
 	return cs
 }
@@ -630,6 +723,26 @@ func runSmall(c *run.Case, w *run.Worker, t tally, idx int, s smallScript) {
 				sc.ctor, sc.backend = ctor, backend
 				execute(c, w, t, &sc, cons, false)
 			}
+		}
+	}
+	// The same script behind a validation caching factory: the whole consumer
+	// list reads the same digest, one read after the other, through one
+	// factory (see history.go for the oracle's gate).
+	if s.mask == 0 && s.empties == 0 {
+		for _, ctor := range []int{ctorVCByteSlice, ctorVCReaderAt} {
+			if ctor == ctorVCByteSlice && (s.errPos >= 0 || s.termWithData) {
+				continue
+			}
+			sc := base
+			sc.ctor, sc.backend = ctor, true
+			// A window of the consumer list, starting at a different place
+			// for every script.
+			list := smallConsumers(s.size)
+			win := make([]*consumer, 0, smallHistoryLen)
+			for k := 0; k < smallHistoryLen && k < len(list); k++ {
+				win = append(win, list[(idx*7+k)%len(list)])
+			}
+			runSmallHistory(c, w, t, &sc, win)
 		}
 	}
 }
